@@ -326,6 +326,64 @@ theorem startContent_isOk (c c' : Core) (k : Str) (a : List (Str × Str)) (ty : 
     (startContent c k a ty e).isOk = (startContent c' k a ty e').isOk := by
   rw [startContent_isOk_eq, startContent_isOk_eq]
 
+theorem startContentL_isOk_eq (c : Core) (k : Str) (a : List (Str × Str)) (ty : Str) (e : Bool) :
+    (startContentL c k a ty e).isOk = !(some (mapContentType ((sget a (S "type")).getD ty)) == some XHTML) := by
+  rw [← startContent_isOk_eq c k a ty e]
+  unfold startContentL
+  cases hs : startContent c k a ty e with
+  | error w => rfl
+  | ok r => obtain ⟨c2, pe⟩ := r; cases pe <;> rfl
+
+theorem startContentElem_isOk_eq (c : Core) (a : List (Str × Str)) :
+    (startContentElem c a).isOk = !(some (mapContentType ((sget a (S "type")).getD (S "text/plain"))) == some XHTML) := by
+  rw [← startContent_isOk_eq { c with hasContent := true } (S "content") a (S "text/plain") true]
+  unfold startContentElem
+  cases hs : startContent { c with hasContent := true } (S "content") a (S "text/plain") true with
+  | error w => rfl
+  | ok r => rfl
+
+/-- neither default content type of the stage-3 handlers is XHTML: whether the start is inside the domain depends on the `type` attribute only -/
+theorem xhtml_default (a : List (Str × Str)) :
+    (some (mapContentType ((sget a (S "type")).getD (S "text/html"))) == some XHTML) =
+    (some (mapContentType ((sget a (S "type")).getD (S "text/plain"))) == some XHTML) := by
+  cases sget a (S "type") with
+  | some t => rfl
+  | none => decide +kernel
+
+/-- which starts of stage 3 are inside the model's domain: a function of the kind and the attributes only -/
+def extOk (kind : Str) (a : List (Str × Str)) : Bool :=
+  if kind == S "description" || kind == S "abstract" || kind == S "summary" || kind == S "content" || kind == S "content_encoded"
+  then !(some (mapContentType ((sget a (S "type")).getD (S "text/plain"))) == some XHTML) else false
+
+theorem startExt_isOk (c : Core) (kind : Str) (a : List (Str × Str)) : (startExt c kind a).isOk = extOk kind a := by
+  unfold startExt extOk
+  simp only
+  by_cases h1 : (kind == S "description") = true
+  · simp only [h1, ↓reduceIte, Bool.true_or]
+    split
+    · exact startContentElem_isOk_eq _ _
+    · rw [startContentL_isOk_eq, xhtml_default]
+  · simp only [h1, Bool.false_eq_true, ↓reduceIte, Bool.false_or]
+    by_cases h2 : (kind == S "abstract") = true
+    · simp only [h2, ↓reduceIte, Bool.true_or]
+      exact startContentL_isOk_eq _ _ _ _ _
+    · simp only [h2, Bool.false_eq_true, ↓reduceIte, Bool.false_or]
+      by_cases h3 : (kind == S "summary") = true
+      · simp only [h3, ↓reduceIte, Bool.true_or]
+        split
+        · exact startContentElem_isOk_eq _ _
+        · exact startContentL_isOk_eq _ _ _ _ _
+      · simp only [h3, Bool.false_eq_true, ↓reduceIte, Bool.false_or]
+        by_cases h4 : (kind == S "content") = true
+        · simp only [h4, ↓reduceIte, Bool.true_or]
+          exact startContentElem_isOk_eq _ _
+        · simp only [h4, Bool.false_eq_true, ↓reduceIte, Bool.false_or]
+          by_cases h5 : (kind == S "content_encoded") = true
+          · simp only [h5, ↓reduceIte]
+            rw [startContentL_isOk_eq, xhtml_default]
+          · simp only [h5, Bool.false_eq_true, ↓reduceIte]
+            rfl
+
 /-- errors of the dispatch depend on the handler name and the attributes only -/
 theorem dispatch_isOk (c c' : Core) (hn : Str) (attrsD : List (Str × Str)) :
     (dispatchCore c hn attrsD).isOk = (dispatchCore c' hn attrsD).isOk := by
@@ -360,7 +418,10 @@ structure VX where
   openC : Option (Option Str)
 deriving DecidableEq
 
-def projX (s : MSt) : VX := ⟨proj s.c, if s.c.incontent then some (s.stack.head?.map (·.name)) else none⟩
+/-- the name of the element on top of the stack, if it is one a title / plain text-construct handler pushes -/
+def topPlain (st : List Elem) : Option Str := (st.head?.map (·.name)).filter isPlainKey
+
+def projX (s : MSt) : VX := ⟨proj s.c, if s.c.incontent then some (topPlain s.stack) else none⟩
 
 /-- which dispatches open a text construct, and the element they push -/
 def dispOpen (hn : Str) : Option Str :=
@@ -376,16 +437,22 @@ def vStep (loose : Bool) (x : VX) : MEv → Option VX
     let v1 := declFold (attrs.map (normAttr loose)) x.v
     let a := dictOf (attrs.map (normAttr loose))
     let h := hnV v1 tag
+    match extKind h with
+    | some kind => if extOk kind a then some ⟨v1, some none⟩ else none      -- stage 3: a summary / description / content element opens
+    | none =>
     if (dispatchCore { version := v1.version, nsMap := v1.nsMap } h a).isOk then some ⟨⟨dispVer v1.version h a, v1.nsMap⟩, (dispOpen h).map some⟩ else none
   | .stop tag =>
     let h := hnV x.v tag
     match x.openC with
     | some top =>
-      (match contentEndKey h, top with
-        | some k, some nm => if nm != k then none else some ⟨x.v, none⟩
-        | _, _ => none)
+      (match extKind h with
+       | some _ => some ⟨x.v, none⟩
+       | none =>
+        (match contentEndKey h, top with
+          | some k, some nm => if nm != k then none else some ⟨x.v, none⟩
+          | _, _ => none))
     | none =>
-      if (contentEndKey h).isSome then none
+      if (contentEndKey h).isSome || (extKind h).isSome then none
       else if h == S "channel" || h == S "feed" || h == S "item" || h == S "entry" || (dateKey h).isSome || !hasEnd h then some x else none
   | .data _ => some x
   | .ns p u => some ⟨trackV x.v p u, x.openC⟩
@@ -424,7 +491,9 @@ theorem popFull_proj (o : Ops) (s : MSt) (el : Str) : proj (popFull o s el).2.c 
           · rfl
           · split
             · rfl
-            · split <;> rfl
+            · split
+              · rfl
+              · split <;> rfl
 
 theorem track_incontent (c : Core) (p : Option Str) (u : Str) : (trackNamespace c p u).incontent = c.incontent := by
   unfold trackNamespace; simp only; split <;> rfl
@@ -514,6 +583,19 @@ theorem dispatch_open (c : Core) (hn : Str) (attrsD : List (Str × Str)) (d : Co
               · injection h with h; injection h with ha _; rw [← ha]; simp [hc, hk]
               · injection h with h; injection h with ha _; rw [← ha]; simp [setContext_incontent, hc, hk]
 
+/-- what `dispOpen` names is a key a title / plain text-construct handler pushes -/
+theorem dispOpen_plain (h k : Str) (hk : dispOpen h = some k) : isPlainKey k = true := by
+  unfold dispOpen at hk
+  split at hk
+  · cases hk
+  · split at hk
+    · cases hk
+    · split at hk
+      · cases hk
+      · apply contentEndKey_plain h k
+        unfold contentEndKey
+        exact hk
+
 theorem step_proj (o : Ops) (s : MSt) (e : MEv) :
     (match mstep o s e with | .ok s' => some (projX s') | .unmodelled _ => none) = vStep o.loose (projX s) e := by
   cases e with
@@ -527,6 +609,29 @@ theorem step_proj (o : Ops) (s : MSt) (e : MEv) :
     simp only [hc', Bool.false_eq_true, ↓reduceIte, hx, Option.isSome_none, startTag0, hv]
     have hp := startPre_proj o s.c tag attrs
     rw [hp.2, handlerName_proj, hp.1]
+    cases hxk : extKind (hnV (declFold (attrs.map (normAttr o.loose)) (proj s.c)) tag) with
+    | some kind =>
+      -- stage 3: a summary / description / content start handler
+      simp only
+      have hok := startExt_isOk (startPre o s.c tag attrs).1 kind (dictOf (attrs.map (normAttr o.loose)))
+      cases hr : startExt (startPre o s.c tag attrs).1 kind (dictOf (attrs.map (normAttr o.loose))) with
+      | error w =>
+        rw [hr] at hok
+        simp only [applyExt]
+        rw [← hok]; rfl
+      | ok r =>
+        obtain ⟨c', es⟩ := r
+        rw [hr] at hok
+        have hf := startExt_frame _ _ _ _ _ hr
+        obtain ⟨e, rest, hes, hnp⟩ := startExt_top _ _ _ _ _ hr
+        simp only [applyExt]
+        rw [← hok]
+        simp only [Except.isOk, Except.toBool, ↓reduceIte, projX, hf.2.2.2.2.2.2.2.2.1, Option.some.injEq, VX.mk.injEq]
+        refine ⟨?_, ?_⟩
+        · rw [← hp.1]; simp only [proj, hf.2.2.2.1, hf.2.2.2.2.1]
+        · simp [topPlain, hes, hnp]
+    | none =>
+    simp only
     have hok := dispatch_isOk (startPre o s.c tag attrs).1
       { version := (declFold (attrs.map (normAttr o.loose)) (proj s.c)).version, nsMap := (declFold (attrs.map (normAttr o.loose)) (proj s.c)).nsMap }
       (hnV (declFold (attrs.map (normAttr o.loose)) (proj s.c)) tag) (dictOf (attrs.map (normAttr o.loose)))
@@ -557,42 +662,75 @@ theorem step_proj (o : Ops) (s : MSt) (e : MEv) :
           | none => rw [hdo] at ho; simp at ho
           | some k => rw [hdo] at ho; simp at ho
       | some el =>
-        simp only [applyDispatch, Except.isOk, Except.toBool, ↓reduceIte, projX, proj, hv.1, hv.2, h1, h2, Option.some.injEq, VX.mk.injEq, true_and, List.head?_cons]
+        simp only [applyDispatch, Except.isOk, Except.toBool, ↓reduceIte, projX, proj, hv.1, hv.2, h1, h2, Option.some.injEq, VX.mk.injEq, true_and]
         simp only [proj] at ho
-        rw [← ho]
+        -- the pushed element is the title / plain key `dispOpen` names, so it survives the `isPlainKey` filter
+        cases hdi : d.incontent with
+        | false =>
+          rw [hdi] at ho
+          simp only [Bool.false_eq_true, ↓reduceIte] at ho ⊢
+          exact ho
+        | true =>
+          rw [hdi] at ho
+          simp only [↓reduceIte, Option.map_some] at ho ⊢
+          rw [← ho]
+          have hpk := dispOpen_plain (hnV (declFold (List.map (normAttr o.loose) attrs) { version := s.c.version, nsMap := s.c.nsMap }) tag) el.name
+            (by have := ho; cases hdo : dispOpen (hnV (declFold (List.map (normAttr o.loose) attrs) { version := s.c.version, nsMap := s.c.nsMap }) tag) with
+                | none => rw [hdo] at this; simp at this
+                | some k => rw [hdo] at this; simp at this; rw [this])
+          simp [topPlain, hpk]
   | stop tag =>
     simp only [mstep, endTag, vStep]
     have hvv : (projX s).v = proj s.c := rfl
     by_cases hc : s.c.incontent = true
     · -- the end tag of the open text construct
-      have hx : (projX s).openC = some (s.stack.head?.map (·.name)) := by simp [projX, hc]
+      have hx : (projX s).openC = some (topPlain s.stack) := by simp [projX, hc]
       simp only [hc, ↓reduceIte, hx, hvv, handlerName_proj]
+      cases hxk : extKind (hnV (proj s.c) tag) with
+      | some kind =>
+        -- stage 3: summary / description / content
+        simp only [endExt, projX, Option.some.injEq, VX.mk.injEq]
+        have hf := endExtCore_frame o s kind
+        have hpf := popFull_proj o s (endPlan s.c kind).1
+        refine ⟨?_, ?_⟩
+        · simp only [proj, endFinish, hf.2.1, hf.2.2.1]
+          simp only [proj] at hpf
+          simpa [popContent] using hpf
+        · simp only [endFinish, hf.2.2.2.1]
+          simp
+      | none =>
+      simp only
       unfold endContent
       cases hk : contentEndKey (hnV (proj s.c) tag) with
       | none => simp
       | some k =>
+        have hpk := contentEndKey_plain _ k hk
         cases hs : s.stack with
-        | nil => simp
+        | nil => simp [topPlain]
         | cons top rest =>
-          simp only [List.head?_cons, Option.map_some]
           by_cases hne : (top.name != k) = true
-          · simp [hne]
-          · simp only [hne, Bool.false_eq_true, ↓reduceIte, projX, Option.some.injEq, VX.mk.injEq]
+          · simp only [hne, ↓reduceIte, topPlain, List.head?_cons, Option.map_some]
+            by_cases hpt : isPlainKey top.name = true
+            · simp [Option.filter, hpt, hne]
+            · simp [Option.filter, hpt]
+          · have hnk : top.name = k := by simpa using hne
+            simp only [hne, Bool.false_eq_true, ↓reduceIte, projX, topPlain, List.head?_cons, Option.map_some, hnk, Option.filter, hpk,
+              bne_self_eq_false, Option.some.injEq, VX.mk.injEq]
             have ha := afterTitle_frame k (popContent o s k)
             have hpf := popFull_proj o s k
             refine ⟨?_, ?_⟩
             · simp only [proj, endFinish, ha.2.2.2.1, ha.2.2.2.2.1]
               simp only [proj] at hpf
-              simpa [popContent] using hpf
+              simpa [popContent, hs] using hpf
             · simp only [endFinish, ha.2.2.2.2.2.2.2.2.2.1]
               simp [popContent]
     have hc' : s.c.incontent = false := by simpa using hc
     have hx : (projX s).openC = none := by simp [projX, hc']
     simp only [hc', Bool.false_eq_true, ↓reduceIte, hx, hvv, handlerName_proj]
-    by_cases hk : (contentEndKey (hnV (proj s.c) tag)).isSome = true
-    · simp [hk]
+    by_cases hk : ((contentEndKey (hnV (proj s.c) tag)).isSome || (extKind (hnV (proj s.c) tag)).isSome) = true
+    · simp only [hk, ↓reduceIte]
     simp only [hk, Bool.false_eq_true, ↓reduceIte, endTag0, handlerName_proj]
-    have e1 : ∀ (c : Core) (st : List Elem), projX ⟨endFinish o c, st⟩ = ⟨proj c, if c.incontent then some (st.head?.map (·.name)) else none⟩ := fun _ _ => rfl
+    have e1 : ∀ (c : Core) (st : List Elem), projX ⟨endFinish o c, st⟩ = ⟨proj c, if c.incontent then some (topPlain st) else none⟩ := fun _ _ => rfl
     have e2 : ∀ (c : Core) (b : Bool), proj { c with infeed := b } = proj c := fun _ _ => rfl
     have e3 : ∀ (c : Core) (b : Bool), proj { c with inentry := b } = proj c := fun _ _ => rfl
     have e4 : ∀ (c : Core) (k : Str) (v : V), proj (setContext c k v) = proj c := by
@@ -613,7 +751,7 @@ theorem step_proj (o : Ops) (s : MSt) (e : MEv) :
     split
     · rfl
     · rename_i top rest hs
-      simp [projX, hs]
+      simp [projX, hs, topPlain]
   | ns p u =>
     simp only [mstep, vStep, projX, track_incontent]
     rw [← track_proj]
@@ -796,7 +934,7 @@ theorem date_start (o : Ops) (s : MSt) (tag k pk : Str) (hk : dateKey (handlerNa
     unfold handlerName; rw [hpre.2.2.1]
   obtain ⟨n1, n2, n3, n4, n5⟩ := dateKey_not_structural _ _ hk
   refine ⟨(startPre o s.c tag []).1, ?_, hpre.1, hpre.2.1, hpre.2.2.1, by rw [startPre_incontent]; exact hnc⟩
-  simp only [mstep, startTag, hnc, Bool.false_eq_true, ↓reduceIte, startTag0, hh, hpre.2.2.2]
+  simp only [mstep, startTag, hnc, Bool.false_eq_true, ↓reduceIte, startTag0, hh, hpre.2.2.2, dateKey_not_ext _ _ hk]
   unfold dispatchCore
   simp only [n1, n2, n3, n4, n5, Bool.false_eq_true, ↓reduceIte, Bool.or_self, hk, Option.isSome_some, Option.map_some, applyDispatch]
 
@@ -821,7 +959,7 @@ theorem date_stop (o : Ops) (s : MSt) (tag k pk : Str) (ps : List Str) (rest : L
     unfold pop
     simp only [hst, bne_self_eq_false, Bool.false_eq_true, ↓reduceIte, Bool.not_true, hu, Bool.false_and, hp, hin, hen, updHead]
   refine ⟨⟨endFinish o (setContext (pop o s k).c pk (.t (parsedOf o (o.fix (stripS ps.flatten))))), (pop o s k).stack⟩, ?_, ?_, ?_, ?_⟩
-  · simp only [mstep, endTag, hnc, dateKey_not_content _ _ hk, Option.isSome_none, endTag0, n2, n3, n4, n5, Bool.or_self, Bool.false_eq_true, ↓reduceIte, hk, hv, parsedOf]
+  · simp only [mstep, endTag, hnc, dateKey_not_content _ _ hk, dateKey_not_ext _ _ hk, Option.isSome_none, Bool.or_self, endTag0, n2, n3, n4, n5, Bool.or_self, Bool.false_eq_true, ↓reduceIte, hk, hv, parsedOf]
   · simp only [hpop]
   · simp only [hpop, endFinish, setContext, hin, ↓reduceIte]
   · refine ⟨{ (writeEntry k (o.fix (stripS ps.flatten)) s.c.depth e0) with d := fset (writeEntry k (o.fix (stripS ps.flatten)) s.c.depth e0).d pk (.t (parsedOf o (o.fix (stripS ps.flatten)))) }, ?_, ?_⟩
@@ -942,7 +1080,7 @@ theorem atom_entry_title_verbatim (o : Ops) (s : MSt) (tag t : Str) (e0 : Entry)
   let c0 := (startPre o s.c tag []).1
   let c1 := (pushContent c0 (S "title") [] (S "text/plain") (c0.infeed || c0.inentry)).1
   have h1 : mstep o s (.start tag []) = .ok ⟨c1, ⟨S "title", true, []⟩ :: s.stack⟩ := by
-    simp only [mstep, startTag, hnc, Bool.false_eq_true, ↓reduceIte, startTag0, hh, hpre.2.2.2.1]
+    simp only [mstep, startTag, hnc, Bool.false_eq_true, ↓reduceIte, startTag0, hh, hpre.2.2.2.1, isTitle_not_ext _ ht]
     unfold dispatchCore
     simp only [f1, f2, f3, f4, f5, f6, ht, Bool.false_eq_true, ↓reduceIte, Bool.or_self, Option.isSome_none]
     have hx : startContent c0 (S "title") [] (S "text/plain") (c0.infeed || c0.inentry) = .ok (c1, some ⟨S "title", true, []⟩) := by
@@ -981,20 +1119,22 @@ theorem atom_entry_title_verbatim (o : Ops) (s : MSt) (tag t : Str) (e0 : Entry)
           { d := fset (fset e0.d (S "title") (.s (o.fix (stripS t)))) (S "title" ++ S "_detail") (detailOf c1.cp (some (S "text/plain")) (o.fix (stripS t))),
             depths := (e0.depths.filter (·.1 != S "title")) ++ [(S "title", c1.depth)] }, ?_, ?_, ?_, ?_, ?_⟩
   · simp only [mrun, h1, h2]
-    simp only [mstep, endTag, c1i, ↓reduceIte, hh1]
+    simp only [mstep, endTag, c1i, ↓reduceIte, hh1, isTitle_not_ext _ ht]
     unfold endContent contentEndKey
     simp only [ht, ↓reduceIte, bne_self_eq_false, Bool.false_eq_true]
   · simp only [popContent, popFull, bne_self_eq_false, Bool.false_eq_true, ↓reduceIte, Bool.not_true, List.flatten_cons, List.flatten_nil,
       List.append_nil, hout, c1n]
     have : ((S "title" == S "category") || (S "title" == S "tags") || (S "title" == S "itunes_keywords")) = false := by decide +kernel
-    simp only [this, Bool.false_eq_true, ↓reduceIte, beq_self_eq_true, Bool.true_and, hdepth]
+    have hd3 : (S "title" == S "content") = false := by decide +kernel
+    simp only [this, Bool.false_eq_true, ↓reduceIte, beq_self_eq_true, Bool.true_and, hdepth, hd3, Bool.and_false]
   · have ha := afterTitle_frame (S "title") (popContent o ⟨c1, ⟨S "title", true, [t]⟩ :: s.stack⟩ (S "title"))
     simp only [endFinish, ha.1]
     simp only [popContent, popFull, bne_self_eq_false, Bool.false_eq_true, ↓reduceIte, Bool.not_true, List.flatten_cons, List.flatten_nil,
       List.append_nil, hout, c1n, c1i, c1e, updHead]
     have : ((S "title" == S "category") || (S "title" == S "tags") || (S "title" == S "itunes_keywords")) = false := by decide +kernel
     have hd2 : ((S "title" == S "description")) = false := by decide +kernel
-    simp only [this, Bool.false_eq_true, ↓reduceIte, beq_self_eq_true, Bool.true_and, hdepth, hd2, writeEntry, hfresh, Option.map_none]
+    have hd3 : (S "title" == S "content") = false := by decide +kernel
+    simp only [this, Bool.false_eq_true, ↓reduceIte, beq_self_eq_true, Bool.true_and, hdepth, hd2, hd3, Bool.and_false, writeEntry, hfresh, Option.map_none]
   · simp only [fset]
     have hk2 : (canonKey (S "title" ++ S "_detail") == S "title") = false := by decide +kernel
     rw [dget_dset_other _ _ _ _ hk2]
